@@ -379,6 +379,7 @@ func (b *Binlog) RunPollLoop() error {
 			}
 			return err
 		}
+		verifEv("poll", "", event, nil)
 
 		switch inner := event.Event.(type) {
 		case *replication.RowsEvent:
